@@ -3,7 +3,10 @@ P08 = dict(overlays=['contracts/plain.ovl'], harness='harness/C08/plain.c', incl
 
 JOBS = []
 for t, nloops in [('boolean', 2), ('int32', 0), ('int64', 0), ('int96', 1), ('float', 0), ('double', 0),
-                  ('byte_array', 1), ('fixed', 0)]:
+                  ('byte_array', 1)]:
     fn = 'carquet_decode_plain_' + ('fixed_byte_array' if t == 'fixed' else t)
     JOBS.append(dict(name='c08_plain_' + t, props=['C08', 'C12'], entry='h_plain_' + t, enforce=fn,
-                     min_loop_obligations=nloops, wip=True, **P08))
+                     min_loop_obligations=nloops, timeout=240, wip=True, **P08))
+JOBS.append(dict(name='c08_plain_fixed', props=['C08', 'C12'], entry='h_plain_fixed', harness='harness/C08/plain.c',
+                 includes=['.'], loop_contracts=False, backend=['z3', 'sat'], timeout=240,
+                 functions=['carquet_decode_plain_fixed_byte_array'], wip=True))
